@@ -1,9 +1,113 @@
+import RsslVerif.Model.Names
+import RsslVerif.Gen.Reserved
 import RsslVerif.Driver.Util
-/-! Line-protocol front end of the C15 model (stub until the model is built). -/
+/-!
+Line-protocol front end of the C15 model.
+
+`C15.names <h|m> <program>`: the program descriptor is a space-separated token list
+
+    item := ns NAME item* end | st NAME member* end | en NAME value* end | gl NAME
+          | fn NAME PTYPES param* { stmt* }
+    stmt := lv NAME | { stmt* } | use REF
+
+from which the harness prints RSSL source.  This front end rebuilds the registries the type checker
+produces for that source (namespace ids in order of first opening, structs / enums / globals / functions in
+declaration order, local variables = parameters then body locals, function by function) and runs the
+model of `NameMap::build` with the reserved list of the target.
+-/
 namespace RsslVerif.Driver.C15
+open RsslVerif.Model.Names RsslVerif.Driver
+
+structure PState where
+  nss : Array (Option Nat × String) := #[]
+  structs : Array (Option Nat × String) := #[]
+  enums : Array (Option Nat × String) := #[]
+  globals : Array (Option Nat × String) := #[]
+  funcs : Array (Option Nat × String) := #[]
+  locals : Array String := #[]
+
+def findNs (st : PState) (parent : Option Nat) (name : String) : Option Nat :=
+  (List.range st.nss.size).find? fun i => st.nss[i]! == (parent, name)
+
+/-- skip tokens up to and including the matching `end` (members / values carry no names for `build`) -/
+def skipToEnd : List String → List String
+  | [] => []
+  | "end" :: r => r
+  | _ :: r => skipToEnd r
+
+partial def parseStmts (st : PState) : List String → Option (PState × List String)
+  | "}" :: r => some (st, r)
+  | "lv" :: n :: r => parseStmts { st with locals := st.locals.push n } r
+  | "use" :: _ :: r => parseStmts st r
+  | "{" :: r =>
+    match parseStmts st r with
+    | some (st', r') => parseStmts st' r'
+    | none => none
+  | _ => none
+
+partial def parseItems (st : PState) (cur : Option Nat) (top : Bool) : List String → Option (PState × List String)
+  | [] => if top then some (st, []) else none
+  | "end" :: r => if top then none else some (st, r)
+  | "ns" :: n :: r =>
+    let (st1, id) := match findNs st cur n with
+      | some i => (st, i)
+      | none => ({ st with nss := st.nss.push (cur, n) }, st.nss.size)
+    match parseItems st1 (some id) false r with
+    | some (st2, r2) => parseItems st2 cur top r2
+    | none => none
+  | "st" :: n :: r => parseItems { st with structs := st.structs.push (cur, n) } cur top (skipToEnd r)
+  | "en" :: n :: r => parseItems { st with enums := st.enums.push (cur, n) } cur top (skipToEnd r)
+  | "gl" :: n :: r => parseItems { st with globals := st.globals.push (cur, n) } cur top r
+  | "fn" :: n :: pt :: r =>
+    let np := if pt == "-" then 0 else pt.length
+    let params := r.take np
+    match r.drop np with
+    | "{" :: body =>
+      let st1 := { st with funcs := st.funcs.push (cur, n), locals := st.locals ++ params.toArray }
+      match parseStmts st1 body with
+      | some (st2, r2) => parseItems st2 cur top r2
+      | none => none
+    | _ => none
+  | _ => none
+
+def toInput (st : PState) : Input :=
+  let mk (k : Kind) (xs : Array (Option Nat × String)) : List Entry :=
+    (List.range xs.size).map fun i => ⟨⟨k, i⟩, xs[i]!.1, xs[i]!.2⟩
+  { nss := st.nss.toList
+    entries := mk .struct st.structs ++ mk .enum st.enums ++ mk .global st.globals ++ mk .func st.funcs
+    locals := st.locals.toList }
+
+def parseProgram (s : String) : Option Input :=
+  let toks := (s.splitOn " ").filter (· ≠ "")
+  match parseItems {} none true toks with
+  | some (st, []) => some (toInput st)
+  | _ => none
+
+def showNames (names : List Named) : String :=
+  let one (n : Named) : String :=
+    match qualified names n.sym with
+    | .ok q => n.sym.kind.letter ++ toString n.sym.id ++ "=" ++ "::".intercalate q
+    | .error e => n.sym.kind.letter ++ toString n.sym.id ++ "!" ++ e
+  let order : List Kind := [.ns, .struct, .enum, .global, .func, .localVar]
+  let sorted := order.flatMap fun k =>
+    let ks := names.filter (fun n => n.sym.kind == k)
+    (List.range ks.length).filterMap fun i => ks.find? (fun n => n.sym.id == i)
+  " ".intercalate (sorted.map one)
+
+def reservedFor (t : String) : Option (List String) :=
+  if t == "h" then some RsslVerif.Gen.Reserved.hlsl
+  else if t == "m" then some RsslVerif.Gen.Reserved.msl
+  else none
 
 def handle (op : String) (args : List String) : String :=
-  let _ := (op, args)
-  "unsupported-op"
+  match op, args with
+  | "C15.names", [t, prog] =>
+    match reservedFor t, parseProgram prog with
+    | some res, some inp =>
+      match build res inp with
+      | .ok names => showNames names
+      | .error e => e
+    | _, _ => "bad-request"
+  | _, _ => "unsupported-op"
 
 end RsslVerif.Driver.C15
